@@ -40,6 +40,16 @@ CHECKS = {
     technique="TLA+ model of the include FileStack (Includes.tla) checked by TLC (safety + termination) over all include graphs, placements and named sequences; every TLC-generated project materialised with real paths/symlinks/-L options and run in-process and through the real binary, output validated by RunnerTrace.tla",
     text="Exhaustive over every include relation on 2 files (thorough: 3, sampled replay) plus a missing target, every placement of the files in the source or library directory and every sequence of named files; spellings (plain, ./, sub/../, symlink, library directory or library file, named via ./ or a symlink) are rotated over the edges. For each project the FileLibrary must hold every reachable file exactly once with the right named/included status, one error located at the include statement per unresolvable edge, the analysed definitions must be exactly those of the named files, included definitions must inform inter-procedural findings, and the run must terminate.",
     note="Resolution rule of the model: same directory = local, target in the library directory = via -L, otherwise unresolvable; files identified by base name."),
+ "C01": dict(
+    level="exploration", design="§5 C01",
+    technique="TLA+ token-level derivation machine (Grammar.tla) enumerated by TLC (exhaustive within a step bound + simulation) and rendered with a stress set; all short byte strings over a hostile alphabet; seeded mutations; every run of the real binary validated by TLC against the Totality clauses of PipelineTrace.tla",
+    text="Bounded-exhaustive over the token model (every leftmost derivation of the Circom grammar within 8 (thorough: 10) expansion steps, two stress renderings each), deep random derivations from TLC's simulation mode, every byte string up to 3 (4) bytes over 12 hostile symbols, a hand-written stress corpus and thousands of seeded mutations, rotated over all 36 option sets; each run of the real binary under a 60 s / 4 GiB cap is accepted by PipelineTrace.tla only if it ends by itself with status 0/1 and a matching summary as last line. Exploration level: this family gives no coverage feedback and no proof of panic freedom.",
+    note="`Modest size` is read as <= 4 KiB; quadratic memory growth on long expressions (2.5 GB for a 1000-term sum) stays within the cap and is not judged."),
+ "C02": dict(
+    level="fault_enumeration", design="§5 C02",
+    technique="TLA+ pipeline model with fault-injection scenarios (Pipeline.tla) checked by TLC; every scenario rendered and run through the real binary; traces validated by TLC (PipelineTrace.tla); token-level faults with the pipeline's own in-process detection as oracle",
+    text="Every assignment of {none, missing, unreadable, bad pragma, syntax fault, unresolved include} to 2 (thorough: 3) named files x {none, malformed tuple, anonymous component in an expression, duplicate parameters, duplicate definition} to their definitions x 0..2 main components is generated by TLC (whose model is checked for NoSilentFailure / CleanMeansComplete / termination), rendered with rotating fault details (4 pragma versions, invalid UTF-8 or dangling symlink, `@` at every token position, several sugar shapes) and run through the real binary at --level warning and --level error. PipelineTrace.tla accepts a run iff every fault present has an error-level diagnostic naming the right file, the status is 1, and status 0 comes with every definition analysed. Delete/duplicate(/swap) mutations at every token position are judged against what the pipeline itself detects in-process.",
+    note="Default level and --level error only (an id put in --allow is hidden by request, C03); attribution of a diagnostic to a fault class by id, message stem and file."),
 }
 
 NOT_YET = "check not built yet (work in progress; see DESIGN.md §8 for the order)"
